@@ -27,7 +27,8 @@ def tolerated(case, i, impl, model):
 
 def gen_cases(rng, tier):
     n = 400 if tier == "thorough" else 40
-    cases = [_hist.gen_history_case(rng, rng.randint(8, 26)) for _ in range(n)]
+    cases = [_hist.gen_history_case(rng, rng.randint(8, 26), refless_script=(i % 5 == 4))
+             for i in range(n)]
     # currency declarations and money-converter updates that are rejected
     from props import C08, C11
     for c in C08.gen_cases(rng, tier):
